@@ -282,3 +282,83 @@ def eq_tests(body, self_ty_rx):
         if c in ("std::cmp::PartialEq::eq", "std::cmp::PartialEq::ne") and rx.search(e.term.get("self_ty") or ""):
             out.append((e, c.endswith("::eq")))
     return out
+
+
+def ok_payload_locals(body, event):
+    """Locals that hold the Ok/Some/Ready payload of the value produced by `event`
+    (after `?`, await or a match)."""
+    carriers = flow.result_carriers(body, event.dest["l"])
+    branch_dests = set()
+    for e in body.events:
+        if e.callee == "std::ops::Try::branch" and e.args:
+            l = flow.operand_local(e.args[0])
+            if l in carriers:
+                branch_dests.add(e.dest["l"])
+    out = set()
+    for bb, j, s in body.all_assigns():
+        rv = s["rv"]
+        if rv["rk"] != "use" or rv["ops"][0].get("k") not in ("copy", "move"):
+            continue
+        src = rv["ops"][0]["pl"]
+        if not src["p"]:
+            continue
+        if (src["l"] in branch_dests and src["p"][0] == "dc:Continue") or \
+                (src["l"] in carriers and src["p"][0] in ("dc:Ok", "dc:Some")):
+            if not s["pl"]["p"]:
+                out.add(s["pl"]["l"])
+    return out
+
+
+def local_bool_edges(body, start_locals, polarity):
+    """Edges taken when one of the bool locals (or a copy / negation of it) == polarity."""
+    edges = set()
+    tracked = {l: False for l in start_locals}
+    changed = True
+    while changed:
+        changed = False
+        for bb, j, s in body.all_assigns():
+            if s["pl"]["p"]:
+                continue
+            rv = s["rv"]
+            d = s["pl"]["l"]
+            if rv["rk"] == "use":
+                l = flow.operand_local(rv["ops"][0])
+                if l in tracked and not rv["ops"][0]["pl"]["p"] and d not in tracked:
+                    tracked[d] = tracked[l]
+                    changed = True
+            elif rv["rk"] == "unop" and rv["op"] == "Not":
+                l = flow.operand_local(rv["ops"][0])
+                if l in tracked and d not in tracked:
+                    tracked[d] = not tracked[l]
+                    changed = True
+    for bb in body.live:
+        t = body.blocks[bb]["term"]
+        if t["tk"] != "switch":
+            continue
+        l = flow.operand_local(t["discr"])
+        if l in tracked and not t["discr"]["pl"]["p"]:
+            want = polarity != tracked[l]
+            arms = {int(a[0]): a[1] for a in t["arms"]}
+            if want:
+                if 0 in arms:
+                    edges.add((bb, t["otherwise"]))
+                if 1 in arms:
+                    edges.add((bb, arms[1]))
+            else:
+                if 0 in arms:
+                    edges.add((bb, arms[0]))
+                elif 1 in arms:
+                    edges.add((bb, t["otherwise"]))
+    return edges
+
+
+def field_read_locals(body, field):
+    """Locals assigned from a read of a struct field named `field`."""
+    out = set()
+    for bb, j, s in body.all_assigns():
+        rv = s["rv"]
+        if rv["rk"] == "use" and rv["ops"][0].get("k") in ("copy", "move") and not s["pl"]["p"]:
+            p = rv["ops"][0]["pl"]["p"]
+            if p and p[-1].startswith("f:") and p[-1].split(":", 2)[2] == field:
+                out.add(s["pl"]["l"])
+    return out
